@@ -173,7 +173,8 @@ impl Prop for C02 {
         if cfg.chance(1, 2) { for _ in 0..(3 + r.usize(12)) { quads.push((format!("http://e/n{}", r.below(v.nn)), "http://e/num".to_string(), format!("{}", r.below(10)), if r.chance(1, 5) { Some(format!("http://e/g{}", r.below(3))) } else { None })); } }
         let empty_graphs = if r.chance(1, 3) { vec!["http://e/gempty".to_string()] } else { vec![] };
         let stale_extra = (0..r.usize(30)).map(|_| (format!("http://e/n{}", r.below(v.nn)), format!("http://e/p{}", r.below(v.np + 1)), format!("http://e/n{}", r.below(v.nn)))).collect();
-        let body = gen_group(&mut r, bits, &v, 0);
+        // the mirrored-UNION shape multiplies intermediate results: only over small, sparse datasets
+        let body = gen_group(&mut r, if big || dense { bits & !8192 } else { bits }, &v, 0);
         let mut av = vec![]; all_vars(&body, &mut av); av.sort(); av.dedup();
         let plain = cfg.chance(1, 2);
         let nsel = 1 + r.usize(av.len().max(1)); let mut vars: Vec<String> = av.clone(); r.shuffle(&mut vars); vars.truncate(if plain { av.len() } else { nsel }); vars.sort();
